@@ -98,7 +98,8 @@ theorem idx_bound (T j a R : Nat) (hj : j < R) (ha : a < T) : j * T + a < R * T 
     destination the entrywise sum over its sources, and stores the updated links. -/
 theorem mu_transmit_tables (nRx nTx : Nat) (hR : 0 < nRx) (hT : 0 < nTx) (Lk L' : Nat → Su α) (sw : Bool)
     (hsw : (Lk 0).tdl.switched = sw)
-    (x : List (List (List α))) (send : Su α → List (List α) → Except PyErr (Su α × List (List α)))
+    (x : List (List (List α))) (hx : x.length = (if sw then nRx else nTx))
+    (send : Su α → List (List α) → Except PyErr (Su α × List (List α)))
     (R len : Nat) (F : Nat → Nat → Nat → α)
     (hsend : ∀ idx, idx < nRx * nTx → ∃ s, x[if sw then idx / nTx else idx % nTx]? = some s ∧
         send (Lk idx) s = .ok (L' idx, tab R (fun r => tab len (F idx r)))) :
@@ -122,7 +123,8 @@ theorem mu_transmit_tables (nRx nTx : Nat) (hR : 0 < nRx) (hT : 0 < nTx) (Lk L' 
   simp only [tab_map]
   cases sw with
   | true =>
-    simp only [if_true]
+    simp only [if_true] at hx ⊢
+    simp only [hx, ne_eq, not_true_eq_false, if_false]
     rw [mapM_range_tab nTx _ (fun j => tab R (fun r => tab len (fun m =>
             ((List.range nRx).map (fun a => F (muLink true nTx j a) r m)).sum)))]
     intro j hj
@@ -133,7 +135,8 @@ theorem mu_transmit_tables (nRx nTx : Nat) (hR : 0 < nRx) (hT : 0 < nTx) (Lk L' 
       rw [List.mem_range] at ha
       rw [getElem?_tab, if_pos (idx_bound nTx a j nRx ha hj)]
   | false =>
-    simp only [Bool.false_eq_true, if_false]
+    simp only [Bool.false_eq_true, if_false] at hx ⊢
+    simp only [hx, ne_eq, not_true_eq_false, if_false]
     rw [mapM_range_tab nRx _ (fun j => tab R (fun r => tab len (fun m =>
             ((List.range nTx).map (fun a => F (muLink false nTx j a) r m)).sum)))]
     intro j hj
